@@ -41,6 +41,8 @@ def rand_name(rng):
     if r < 0.45:
         return rng.choice(["local_x_0", "localx", "lploc_y", "lploc_Y", "x_007", "x_7", "y_1_2", "y_1", "dagrt_z", "dagrt_T",
                            "x_0", "x", "X", "global_x", "self.global_x", "drtf_a", "dagrt_refcnt_x", "x__3", "x_", "_x", "1x"])
+    if r < 0.5:
+        return rng.choice(TAGS) + base + rng.choice([">", "->", "<", ">>", "<p>", "<state>"]) + base
     if r < 0.55:
         return base + rng.choice(["<", ">", " ", ".", "%", "é", "-"]) + base
     if r < 0.6:
@@ -60,6 +62,11 @@ def cases(rng, tier):
             if i % step:
                 continue
             yield {"op": "C13.names", "tag": "exh2", "lang": lang, "ops": [["var", a], ["var", b], ["var", a], ["var", b]]}
+    for tag in TAGS:
+        for body in ["a>b", ">", "<state>y", "a<b", "a>", "<p>", "x->y", ">>", "<t>", "a b>c"]:
+            for lang in ("python", "fortran"):
+                yield {"op": "C13.names", "tag": "exh-tagged", "lang": lang,
+                       "ops": [["var", tag + body], ["var", tag + body], ["refcount", tag + body] if lang == "fortran" else ["var", body]]}
     for cp in list(range(0x300)) + [0x3b1, 0x4e2d, 0x1f600, 0x660]:
         yield {"op": "C13.ident", "tag": "ident", "name": "x" + chr(cp) + "y"}
         yield {"op": "C13.ident", "tag": "ident", "name": chr(cp)}
